@@ -1,6 +1,7 @@
 package main
 
 import (
+	"fmt"
 	"encoding/json"
 	"sort"
 
@@ -41,7 +42,51 @@ func statsFamily(c map[string]json.RawMessage) (interface{}, error) {
 		items := append([]string{}, r.Nullable.Items...)
 		sort.Strings(items)
 		return map[string]interface{}{"UtilsCount": r.Summary.UtilsCount, "ClassCount": r.Summary.ClassCount,
-			"MethodCount": r.Summary.MethodCount, "StaticMethodCount": r.Summary.StaticMethodCount, "Nullable": items}, nil
+			"MethodCount": r.Summary.MethodCount, "StaticMethodCount": r.Summary.StaticMethodCount, "Nullable": items,
+			"full": asCollection(map[string]interface{}{"Nullable": r.Nullable, "ServiceSummary": r.ServiceSummary, "UtilsSummary": r.UtilsSummary,
+				"UtilsCount": r.Summary.UtilsCount, "ClassCount": r.Summary.ClassCount, "MethodCount": r.Summary.MethodCount,
+				"NormalMethodCount": r.Summary.NormalMethodCount, "TotalMethodLength": r.Summary.TotalMethodLength,
+				"StaticMethodCount": r.Summary.StaticMethodCount,
+				// the deviations can be NaN, which JSON cannot carry
+				"MethodLengthStdDeviation": fmt.Sprintf("%v", r.Summary.MethodLengthStdDeviation),
+				"MethodNumStdDeviation":    fmt.Sprintf("%v", r.Summary.MethodNumStdDeviation)})}, nil
 	}
 	return nil, nil
+}
+
+// the whole evaluation result (what `coca evaluate` writes to evaluate.json) as a collection: every list sorted by the
+// JSON text of its elements, maps by key (C08 compares it between runs; the Lean model does not produce it)
+func asCollection(v interface{}) string {
+	raw, err := json.Marshal(v)
+	if err != nil {
+		return "marshal error: " + err.Error()
+	}
+	var x interface{}
+	_ = json.Unmarshal(raw, &x)
+	out, _ := json.Marshal(canonColl(x))
+	return string(out)
+}
+
+func canonColl(x interface{}) interface{} {
+	switch t := x.(type) {
+	case map[string]interface{}:
+		for k, v := range t {
+			t[k] = canonColl(v)
+		}
+		return t
+	case []interface{}:
+		keys := make([]string, len(t))
+		for i, v := range t {
+			t[i] = canonColl(v)
+			b, _ := json.Marshal(t[i])
+			keys[i] = string(b)
+		}
+		sort.Strings(keys)
+		outl := make([]interface{}, len(keys))
+		for i, k := range keys {
+			outl[i] = json.RawMessage(k)
+		}
+		return outl
+	}
+	return x
 }
